@@ -447,7 +447,9 @@ func (fox *Router) Txn(write bool) *Txn {
 
 func (fox *Router) txnWith(write, cache bool) *Txn {
 	if write {
+		verifPoint(fox, vpLockWait)
 		fox.mu.Lock()
+		verifPoint(fox, vpLockAcquired)
 	}
 
 	return &Txn{
@@ -483,6 +485,7 @@ func (fox *Router) newTree() *iTree {
 // getRoot load the tree atomically.
 func (fox *Router) getRoot() *iTree {
 	r := fox.tree.Load()
+	verifPoint(fox, vpLoad)
 	return r
 }
 
